@@ -148,4 +148,18 @@ def generate(rng, tier):
         if lead == 0 or lead < 0.05 * low:
             continue
         out.append((f"poly 4 " + " ".join(fb(c) for c in cs) + " " + " ".join(root_queries(cs)), True))
+    # one cubic per branch pattern of the touch test (and its mirror image, which takes the "value above" branches)
+    from vlib.gen_stats import stratified_cubics
+    for (z0, p) in stratified_cubics(rng, 8000 if thorough else 2000, 2 if thorough else 1):
+        for sign in (1.0, -1.0):
+            P = [sign * z0, sign * p[0], sign * p[1], sign * p[2]]
+            cs = [P[0], 3 * (P[1] - P[0]), 3 * (P[0] - 2 * P[1] + P[2]), P[3] - 3 * P[2] + 3 * P[1] - P[0]]
+            cs = [b2f(f2b(float(c))) for c in cs]
+            vals = [pe(cs, i / 40) for i in range(41)]
+            lo, hi = min(vals), max(vals)
+            qs = []
+            for frac in (-0.05, 0.02, 0.25, 0.5, 0.75, 0.98, 1.05):
+                y = b2f(f2b(lo + (hi - lo) * frac))
+                qs += ["T" + fb(y), "S" + fb(y)]
+            out.append((f"poly 4 " + " ".join(fb(c) for c in cs) + " " + " ".join(qs) + " X", True))
     return out
